@@ -307,18 +307,25 @@ func (runInfo *runInfoStruct) callVMFunctionDirect(f reflect.Value, callExpr *as
 	runInfo.rv = nilValue
 
 	if callExpr.Go {
-		switch {
-		case fn0 != nil:
-			go fn0(runInfo.ctx)
-		case fn1 != nil:
-			go fn1(runInfo.ctx, args[0])
-		case fn2 != nil:
-			go fn2(runInfo.ctx, args[0], args[1])
-		case fn3 != nil:
-			go fn3(runInfo.ctx, args[0], args[1], args[2])
-		case fn4 != nil:
-			go fn4(runInfo.ctx, args[0], args[1], args[2], args[3])
-		}
+		ctx, debug := runInfo.ctx, runInfo.options.Debug
+		go func() {
+			if !debug {
+				// a panic of the called function must not take the host down
+				defer func() { recover() }()
+			}
+			switch {
+			case fn0 != nil:
+				fn0(ctx)
+			case fn1 != nil:
+				fn1(ctx, args[0])
+			case fn2 != nil:
+				fn2(ctx, args[0], args[1])
+			case fn3 != nil:
+				fn3(ctx, args[0], args[1], args[2])
+			case fn4 != nil:
+				fn4(ctx, args[0], args[1], args[2], args[3])
+			}
+		}()
 		return true
 	}
 
